@@ -373,7 +373,9 @@ def replay_in_fresh_process(check_id, path):
     """Re-execute a replay file in a fresh interpreter; returns the signature it prints."""
     env = dict(os.environ)
     env["PYTHONHASHSEED"] = "0"
-    p = subprocess.run([sys.executable, os.path.join(VERIF, "check.py"), check_id, "--replay", path, "--sig-only"],
+    env.pop("VERIF_PYVARIANT_ACTIVE", None)      # the fresh interpreter picks its options from the replay file
+    env.pop("VERIF_PYVARIANT", None)
+    p = subprocess.run([sys.executable, "-B", os.path.join(VERIF, "check.py"), check_id, "--replay", path, "--sig-only"],
                        capture_output=True, text=True, timeout=600, env=env, cwd=VERIF)
     for line in p.stdout.splitlines():
         if line.startswith("SIG "):
@@ -617,7 +619,11 @@ def main(argv=None):
             by_sig.setdefault(sig, (i, detail))
         for sig, (i, detail) in list(by_sig.items())[:3]:
             plan = space.plan(i, seed)
+            if PYVARIANT:
+                plan["pyvariant"] = PYVARIANT
             small = minimise(check, plan, sig, budget_s=45.0 if args.tier == "quick" else 180.0)
+            if PYVARIANT:
+                small["pyvariant"] = PYVARIANT
             r = _safe_run(check, small)
             path = write_replay(check, small, sig, r.detail or detail, i, seed)
             got = replay_in_fresh_process(check_id, path)
